@@ -1,0 +1,10 @@
+//go:build !verif
+// +build !verif
+
+package mmap
+
+// Verification hooks (see verif_on.go). With the "verif" build tag
+// off, every hook is an empty function that inlines to nothing.
+
+func verifSynced(f *File)     {}
+func verifUnmap(f *File) bool { return false }
